@@ -8,6 +8,9 @@ Spec: spec/TokenAware.tla - TokenAwarePlan(reps, child, up, dist, shuffle) = rep
       spec/Placement.tla supplies the rings: a small exhaustive set of ring / layout / replication instances.
       Placement.tla AlterReplication: the keyspace's settings change between plans; the head must follow the
       CURRENT settings (histories enumerated by TLC, installed through Metadata._update_keyspace / _rebuild_all).
+      spec/ReplicaCache.tla: the lazy build of the keyspace's replica map by the first plan, concurrent with an
+      alteration of the settings (one action per critical section); every interleaving replayed with DetSched on
+      the real TokenMap (scheduler-aware _rebuild_lock, yield inside the map computation).
 Bind: every enumerated input combination is evaluated on the real TokenAwarePolicy wrapping a fixed-plan child
       policy, over a real Metadata whose token map and keyspace come from a Placement.tla instance whose real
       get_replicas list for the chosen key has the enumerated length (hosts renamed so that the lists coincide);
@@ -208,6 +211,11 @@ def alter_domain(ctx, by_sig):
     if wres.invariant != "Witness_AlterChangesReplicas":
         raise tlc.MachineryError("vacuity witness Witness_AlterChangesReplicas was not reached")
     hists = [PL.instance_of(s) for s in states if s["phase"] == "done" and len(s["hist"]) > 1]
+    static = {}
+    for s in states:
+        if s["phase"] == "done" and len(s["hist"]) == 1:
+            i0 = PL.instance_of(s)
+            static[(tuple(i0["ring"]), tuple(i0["dc"]), tuple(i0["rack"]), repr(i0["strat"]))] = i0
     kinds = {(h["hist"][-2]["kind"], h["hist"][-1]["kind"]) for h in hists}
     if kinds != {("Simple", "Simple"), ("Simple", "NTS"), ("NTS", "Simple"), ("NTS", "NTS")}:
         raise tlc.MachineryError("alterations enumerated do not cover all strategy changes: %s" % sorted(kinds))
@@ -245,6 +253,105 @@ def alter_domain(ctx, by_sig):
                                  "(%d Simple->Simple histories tried)" % len(probes))
     st = ctx.extra.setdefault("binding_selftest", {"corrupted_rejected": 0})
     st["corrupted_rejected"] += 1
+    return cache_domain(ctx, by_sig, hists, static)
+
+
+CACHE_INVARIANTS = ["TypeOK", "CacheCurrent", "BuilderPlanFromRealSettings", "NoStalePublish"]
+CACHE_WITNESSES = ["Witness_UpdateWhileComputing", "Witness_UpdaterRebuilds", "Witness_UpdaterFindsNothing"]
+
+
+def expected_plan(replicas, n):
+    head = sorted(replicas)
+    return head, [h for h in range(1, n + 1) if h not in head]
+
+
+def plan_matches(plan, replicas, n):
+    head, tail = expected_plan(replicas, n)
+    return len(set(plan)) == len(plan) and sorted(plan[:len(head)]) == head and plan[len(head):] == tail
+
+
+def cache_domain(ctx, by_sig, hists, static):
+    """ReplicaCache.tla: the first token-aware plan of a keyspace (lazy build of the replica map) concurrent with a
+    change of its replication settings; every interleaving of the specification replayed with DetSched."""
+    cfg = tlc.write_cfg(os.path.join(ctx.scratch, "ReplicaCache.cfg"), constants={"WarmChoices": "{TRUE, FALSE}"},
+                        invariants=CACHE_INVARIANTS, deadlock=False)
+    res, nodes, edges, init = tlc.state_graph("ReplicaCache", cfg, ctx.scratch, coverage=True, workers=2, heap="1g", timeout=600)
+    ctx.add_tlc(res, "replica-cache")
+    if res.violation:
+        ctx.violation("TLC: invariant %s violated in ReplicaCache.tla" % res.invariant,
+                      replay={"trace": [s for _, s in res.trace()]}, signature="spec:" + str(res.invariant))
+        return False
+    cov = res.coverage()
+    zero = [a for a in ("B_Lookup", "B_Enter", "B_Publish", "B_Return", "U_Install", "U_Enter", "U_Publish", "U_Return")
+            if cov.get(a, (0, 0))[1] == 0]
+    if zero:
+        raise tlc.MachineryError("ReplicaCache.tla actions never taken: %s" % zero)
+    for w in CACHE_WITNESSES:
+        wcfg = tlc.write_cfg(os.path.join(ctx.scratch, w + ".cfg"), constants={"WarmChoices": "{TRUE, FALSE}"}, invariants=[w], deadlock=False)
+        wres = tlc.check_model("ReplicaCache", wcfg, ctx.scratch, timeout=600, workers=2, heap="1g")
+        if wres.invariant != w:
+            raise tlc.MachineryError("vacuity witness %s was not reached" % w)
+    schedules = L.schedules_of_graph(nodes, edges, init)
+    ctx.note("cache_schedules", len(schedules))
+    if len(schedules) < 10:
+        raise tlc.MachineryError("only %d schedules in the ReplicaCache.tla graph" % len(schedules))
+    # histories (old settings -> new settings on one ring) in which some key's plan changes
+    cands = []
+    for h in hists:
+        if len(h["hist"]) != 2:
+            continue
+        old = static.get((tuple(h["ring"]), tuple(h["dc"]), tuple(h["rack"]), repr(h["hist"][0])))
+        if old is None:
+            continue
+        n = len(h["dc"])
+        diff = [k for k in range(1, 2 * len(h["ring"]) + 2) if expected_plan(old["byKey"][k - 1], n) != expected_plan(h["byKey"][k - 1], n)]
+        if diff:
+            cands.append((h, old, diff[0]))
+    step = max(1, len(cands) // (30 if ctx.quick else 300))
+    chosen = cands[::step]
+    ctx.note("cache_histories", len(chosen))
+    if not chosen:
+        raise tlc.MachineryError("no history whose plans change with the replication settings")
+    runs = 0
+    exact = 0
+    for h, old, bkey in chosen:
+        n = len(h["dc"])
+        inst_old = dict(h, strat=h["hist"][0], hist=None)
+        for warm, sched in schedules:
+            r = L.run_cache_schedule(inst_old, h["hist"][1], warm, sched, n, bkey=bkey)
+            runs += 1
+            ctx.evaluations += 1
+            fails = []
+            if r["error"]:
+                fails.append(("exception", r["error"]))
+            else:
+                stale = [k for k, p in sorted(r["final_plan"].items()) if not plan_matches(p, h["byKey"][k - 1], n)]
+                if stale:
+                    k = stale[0]
+                    fails.append(("stale-replicas-after-concurrent-alter",
+                                  "replication %s altered to %s while the first plan of the keyspace was being made (schedule %s%s): "
+                                  "afterwards the plan for key position %d is %s, the current settings put %s first"
+                                  % (h["hist"][0], h["hist"][1], "".join(sched), ", map built before" if warm else "", k,
+                                     r["final_plan"][k], sorted(h["byKey"][k - 1]))))
+                bp = r["builder_plan"].get(bkey)
+                if bp is None or not (plan_matches(bp, old["byKey"][bkey - 1], n) or plan_matches(bp, h["byKey"][bkey - 1], n)):
+                    fails.append(("concurrent-plan-from-no-settings",
+                                  "the plan made concurrently with the alteration, %s, follows neither the old (%s) nor the new (%s) replicas"
+                                  % (bp, sorted(old["byKey"][bkey - 1]), sorted(h["byKey"][bkey - 1]))))
+            if fails:
+                det = {"n": n, "reps": [], "child": list(range(1, n + 1)), "up": {}, "dist": {}, "shuffle": False, "head": [], "tail": [],
+                       "key_position": bkey, "ring_instance": {k: h[k] for k in ("ring", "dc", "rack", "strat")},
+                       "cache": {"instance": h, "old_byKey": old["byKey"], "warm": warm, "schedule": sched, "bkey": bkey}}
+                by_sig.setdefault("TokenAware:" + fails[0][0], []).append((len(h["ring"]) + len(sched), det, fails))
+                continue
+            ctx.traces_validated += 1
+            exact += 1 if r["skipped"] == 0 else 0
+            ctx.nontrivial(("cache", tuple(h["ring"]), repr(h["hist"]), warm, "".join(sched)))
+            if runs % 400 == 11:
+                ctx.sample({"ring": h["ring"], "settings": h["hist"], "map_built_before": warm, "schedule": "".join(sched),
+                            "concurrent_plan": r["builder_plan"], "plans_afterwards": r["final_plan"]})
+    ctx.note("cache_schedule_runs", runs)
+    ctx.note("cache_schedule_runs_in_step_with_spec", exact)
     return True
 
 
@@ -278,6 +385,9 @@ def run(ctx):
                 seen.add(k)
                 uniq.append(t)
         for _, det, fails in uniq[:MAX_REPORTED_PER_SIGNATURE]:
+            if "cache" in det:
+                ctx.violation(fails[0][1], replay={"cache": det["cache"], "failures": [list(f) for f in fails]}, signature=sig)
+                continue
             if "alter" in det:
                 a = det["alter"]["instance"]
                 ctx.violation("ring owners %s, dc %s, rack %s, replication %s, plans made, then altered to %s (host down: %s, shuffle %s): %s"
@@ -358,6 +468,21 @@ def one_domain(ctx, n, maxreps, per_state, by_sig):
 
 def replay(ctx, obj):
     L.seed_shuffle(ctx.rng)
+    if "cache" in obj:
+        c = obj["cache"]
+        h = c["instance"]
+        n = len(h["dc"])
+        r = L.run_cache_schedule(dict(h, strat=h["hist"][0], hist=None), h["hist"][1], c["warm"], c["schedule"], n, bkey=c["bkey"])
+        print("ring owners %s dc %s rack %s, %s altered to %s, schedule %s" % (h["ring"], h["dc"], h["rack"], h["hist"][0], h["hist"][1],
+                                                                              "".join(c["schedule"])))
+        print("concurrent plan %s ; plans afterwards %s ; error %s" % (r["builder_plan"], r["final_plan"], r["error"]))
+        stale = [k for k, p in sorted(r["final_plan"].items()) if not plan_matches(p, h["byKey"][int(k) - 1], n)]
+        if r["error"] or stale:
+            ctx.violation("replayed: %s" % (r["error"] or "plans for key positions %s do not follow the current settings" % stale),
+                          replay=obj, signature="TokenAware:stale-replicas-after-concurrent-alter")
+        else:
+            print("no mismatch")
+        return
     if "alter" in obj:
         inst = obj["alter"]["instance"]
         fails = alter_plans(inst, obj["shuffle"], obj["alter"]["down"])
